@@ -22,6 +22,7 @@ import (
 	"berty.tech/go-orbit-db/pubsub"
 	"berty.tech/go-orbit-db/pubsub/oneonone"
 	"berty.tech/go-orbit-db/utils"
+	"berty.tech/go-orbit-db/verifhook"
 	cid "github.com/ipfs/go-cid"
 	datastore "github.com/ipfs/go-datastore"
 	leveldb "github.com/ipfs/go-ds-leveldb"
@@ -819,6 +820,7 @@ func (o *orbitDB) monitorDirectChannel(ctx context.Context, bus event.Bus) error
 	if err != nil {
 		return fmt.Errorf("unable to init pubsub subscriber: %w", err)
 	}
+	verifhook.Consumer(bus, sub.Name())
 
 	go func() {
 		for {
@@ -834,23 +836,27 @@ func (o *orbitDB) monitorDirectChannel(ctx context.Context, bus event.Bus) error
 			msg := iface.MessageExchangeHeads{}
 			if err := o.messageMarshaler.Unmarshal(evt.Payload, &msg); err != nil {
 				o.logger.Error("unable to unmarshal message payload", zap.Error(err))
+				verifhook.Processed(bus, sub.Name())
 				continue
 			}
 
 			store, ok := o.getStore(msg.Address)
 			if !ok {
 				o.logger.Error("unable to get store from address", zap.Error(err))
+				verifhook.Processed(bus, sub.Name())
 				continue
 			}
 
 			if err := o.handleEventExchangeHeads(ctx, &msg, store); err != nil {
 				o.logger.Error("unable to handle pubsub payload", zap.Error(err))
+				verifhook.Processed(bus, sub.Name())
 				continue
 			}
 
 			if err := o.emitters.newHeads.Emit(NewEventExchangeHeads(evt.Peer, &msg)); err != nil {
 				o.logger.Warn("unable to emit new heads", zap.Error(err))
 			}
+			verifhook.Processed(bus, sub.Name())
 		}
 	}()
 
